@@ -50,7 +50,8 @@ DT_FB = dsops.NUMERIC_FB * 3 + ["bytes", "str"]
 DT_NPZ = dsops.NUMERIC_FB * 2 + ["bytes"] * 4
 DT_TFREC = ["int8", "uint8", "int32", "int64", "float16", "float32", "bytes",
             "str"] * 3 + ["int16", "uint16", "uint32", "uint64", "float64"]
-KINDS = ["dim", "rank", "scalar", "unsafe", "foreign", "ragged", "missing"]
+KINDS = ["dim", "rank", "scalar", "unsafe", "unsafe-sign", "foreign",
+         "ragged", "missing"]
 
 
 def st_attr(fmt):
@@ -139,6 +140,22 @@ def bad_value(attr, good, kind):
                 return arr.astype(np.float64) * (1 + 1e-12), False
             return arr.astype(np.complex128), False
         return None
+    if kind == "unsafe-sign":
+        # same width, other signedness (or float of the same width for ints):
+        # not a safe cast although no bytes are lost
+        dt = np.dtype(dtype)
+        if dt.kind == "u":
+            other = np.dtype(f"int{dt.itemsize * 8}")
+            return (np.zeros(shape, dtype=other) - 3), False
+        if dt.kind == "i":
+            other = np.dtype(f"uint{dt.itemsize * 8}")
+            return (np.zeros(shape, dtype=other) + np.iinfo(other).max - 2), \
+                False
+        if dt.kind == "f" and dt.itemsize >= 4:
+            other = np.dtype(f"int{dt.itemsize * 8}")
+            return (np.zeros(shape, dtype=other) + np.iinfo(other).max - 2), \
+                False
+        return None
     if kind == "foreign":
         if not shape:
             return "abc", False
@@ -219,6 +236,23 @@ def run_case(case, ctx):
                     if ok:
                         accepted.append((ex_id, split, is_bad))
                         per_split_count[split] += 1
+                        if (is_bad and fmt == "fb" and not shape_violation and
+                                w["bad"]["kind"] != "missing" and
+                                attr["dtype"] not in ("bytes", "str")):
+                            try:
+                                vdt = np.asarray(values[attr["name"]]).dtype
+                                castable = np.can_cast(vdt, attr["dtype"],
+                                                       casting="safe")
+                            except TypeError:
+                                castable = False
+                            if not castable:
+                                ctx.fail(
+                                    "unsafe-cast-rejected",
+                                    ("unsafe-cast-accepted", fmt,
+                                     w["bad"]["kind"]),
+                                    f"fb enforces the dtype: write #{ex_id} "
+                                    f"passed {vdt} for attribute {attr} (not "
+                                    f"a safe cast) and was accepted")
                         if is_bad and shape_violation:
                             ctx.fail(
                                 "shape-rejected",
